@@ -906,6 +906,10 @@ def generate(template_path, flavour, repo="/repo", vacuity=False, rules=None, ba
             out.append("    #[verifier::external_body]")
         elif bare and b.id in bare:
             out.append("    #[verifier::exec_allows_no_decreases_clause]")
+        if not (b.extern_body or vacuity) and (loops or re.search(r"\bself\s*\.\s*%s\s*\(" % re.escape(b.name), mask(body))):
+            # loops and recursions are verified in their own solver instance: the verdict of a function then does
+            # not depend on which queries the shared solver happened to see before it (measured: deterministic rlimit)
+            out.append("    #[verifier::spinoff_prover]")
         out.extend(("    " + nsig).split("\n"))
         out.extend(spec)
         out.append("    {")
